@@ -98,8 +98,28 @@ def tableOp : Op
              .flt r.score, .int r.run]))]
   | _ => none
 
+/-- `C18.table_outcomes idSpec names outcomes`: `idSpec` = a label / `None` (individual posterior) or
+    the list of per-parameter IDs; `outcomes` = per run `[estimates, score]` or `None` (broke down) -/
+def tableOutcomesOp : Op
+  | [idV, namesV, outsV] => do
+    let pid ← match idV with
+      | .list l => (l.mapM (Val.opt? Val.str?)).map PostId.perParam
+      | v => (Val.opt? Val.str? v).map PostId.scalar
+    let names ← namesV.strs?
+    let outs ← (← outsV.list?).mapM (fun e => match e with
+      | .none => some (none : Outcome Float)
+      | .list [est, .flt sc] => do some (some ((← est.flts?), sc))
+      | _ => none)
+    match optTableOutcomes false false (0.0 / 0.0 : Float) pid names outs with
+    | .error e => some [errVal (errName e)]
+    | .ok t => some [.str "ok", .list (t.map (fun r =>
+        .list [match r.id with | some i => .str i | none => .none, .str r.param, .flt r.est,
+               .flt r.score, .int r.run]))]
+  | _ => none
+
 def ops : List (String × Op) :=
   [("C18.format_chains", formatOp), ("C18.roundtrip", roundtrip), ("C18.init_row", initOp), ("C18.init_row_legacy", initLegacyOp),
-   ("C18.init_row_filter", initFilterOp), ("C18.table", tableOp)]
+   ("C18.init_row_filter", initFilterOp), ("C18.table", tableOp),
+   ("C18.table_outcomes", tableOutcomesOp)]
 
 end ChiDriver.C18
